@@ -565,7 +565,12 @@ class Interp:
         feasible alternative reuses st, the others get forks."""
         live = []
         for cond, pay in alts:
-            c = simp_bool(cond) if not isinstance(cond, bool) else cond
+            if isinstance(cond, bool):
+                c = cond
+            elif self.feas and domains.structure(cond)[0] in ('atom', 'const'):
+                c = cond      # decided from the byte domains below; no need to simplify
+            else:
+                c = simp_bool(cond)
             if c is False:
                 continue
             live.append((c, pay))
@@ -1390,7 +1395,7 @@ class Interp:
                     c = operand(fr, ins['cond'])
                     if type(c) is Opaque:
                         raise Unsupported('branch on uncomputable value: ' + str(c.data))
-                    if isinstance(c, z3.ExprRef):
+                    if isinstance(c, z3.ExprRef) and not (self.feas and domains.structure(c)[0] == 'atom'):
                         c = simp_bool(c)
                     if c is True:
                         transfer(fr, blk['succs'][0])
